@@ -68,6 +68,7 @@ def _replay_chunk(chunk):
     for scn in chunk:
         absarr.WARM = bool(scn.get("warm", False)) if isinstance(scn, dict) else False
         absarr.FORDER = bool(scn.get("forder", False)) if isinstance(scn, dict) else False
+        absarr.RELABEL = bool(scn.get("relabel", False)) if isinstance(scn, dict) else False
         try:
             r = _check.replay(scn)
         except Exception:
@@ -81,6 +82,8 @@ def _replay_chunk(chunk):
                 v["variant"] = str(v.get("variant", "")) + " warm-caches"
             if absarr.FORDER:
                 v["variant"] = str(v.get("variant", "")) + " fortran-order"
+            if absarr.RELABEL:
+                v["variant"] = str(v.get("variant", "")) + " relabelled-in-place"
             if r.get("machinery"):
                 v["machinery"] = True
             out.append(v)
@@ -92,7 +95,8 @@ def _replay_chunk(chunk):
 def replay_all(modname, scenarios, procs=16, chunk=200):
     # every other scenario is replayed on operands whose caches have been warmed (absarr.WARM); a replay file carries the flag
     # ... and every third one on operands whose data are stored in Fortran order (absarr.FORDER)
-    scenarios = [(dict(s, warm=(k % 2 == 1), forder=(k % 3 == 2)) if isinstance(s, dict) and "warm" not in s else s) for k, s in enumerate(scenarios)]
+    # ... and every fifth one on operands whose axes were looked up under other labels and then relabelled in place (absarr.RELABEL)
+    scenarios = [(dict(s, warm=(k % 2 == 1), forder=(k % 3 == 2), relabel=(k % 5 == 4)) if isinstance(s, dict) and "warm" not in s else s) for k, s in enumerate(scenarios)]
     chunks = [scenarios[i:i + chunk] for i in range(0, len(scenarios), chunk)]
     viol, classes, n, calls = [], {}, 0, 0
     if not chunks:
